@@ -12,14 +12,16 @@ META = {
                    "variables (gaps, reversed arrival and pre-sized indexes are therefore inside); the interleaving of all steps of "
                    "all processes is symbolic. z3 decides: a concurrent read returns exactly the stored text or raises IndexError - "
                    "never an empty line or another id's text; after the writers finished len, is_contiguous, iteration order with gaps, "
-                   "reads of stored / never stored ids, ValueError and no change on a second store; no deadlock; bounded execution. "
+                   "reads of stored / never stored ids, ValueError and no change on a second store; flush() removes every file, resets len / "
+                   "is_contiguous / iteration and leaves a storage that can be written again; no deadlock; bounded execution. "
                    "Counterexamples, witnesses and prefixes are replayed on the REAL class with real Manager/Value/RLock objects, real "
                    "files and real forked processes whose primitive operations a coordinator releases in schedule order.",
     "bounds": {"quick": {"writers": "1 (one config with 2)", "writes per writer": 1, "ids": "0..1 (0..2 with the reader)", "concurrent readers": "<=1 (1 read)",
                          "pre-sized index": "no / yes"},
                "thorough": {"writers": "1..2", "writes per writer": "<=2", "ids": "0..2", "concurrent readers": "<=1 (<=2 reads)",
                             "pre-sized index": "no / yes", "note": "3-process configurations under a context bound of 3 pre-emptions"}},
-    "outside_bounds": ["more processes / writes / ids", "flush() (file removal and reset)", "a storage that was already opened or read in the "
+    "outside_bounds": ["more processes / writes / ids", "flush() while another process still uses the storage (its documented precondition excludes that); "
+                       "its iteration over the path list is one atomic snapshot", "a storage that was already opened or read in the "
                        "parent before the children are forked (inherited handles)", "partial line writes (print+flush is one atomic append)",
                        "reads concurrent with the parent's own inspection", "text content other than one single-line tag per id"],
     "assumptions": ["Manager list / Value proxy calls are atomic and sequentially consistent; RLock is a re-entrant mutex",
@@ -39,6 +41,7 @@ def configs(tier):
         out.append({"w1": 1, "ids": 3, "reads": 1, "inspect": False, "presize": 3, "W": 5, "Ks": (40, 50, 60)})
         out.append({"w1": 1, "ids": 2, "W": 5, "Ks": (80, 100)})
         out.append({"w1": 1, "w2": 1, "ids": 2, "inspect": False, "W": 5, "Ks": (60, 76, 90)})
+        out.append({"w1": 1, "ids": 2, "inspect": "flush", "W": 5, "Ks": (76, 90)})
     else:
         out.append({"w1": 1, "ids": 3, "reads": 2, "inspect": False, "W": 5, "Ks": (50, 60, 76)})
         out.append({"w1": 2, "ids": 3, "reads": 1, "inspect": False, "W": 5, "Ks": (60, 76, 90)})
@@ -46,6 +49,8 @@ def configs(tier):
         out.append({"w1": 1, "ids": 3, "W": 5, "Ks": (80, 100, 120)})
         out.append({"w1": 1, "ids": 3, "presize": 3, "W": 5, "Ks": (80, 100, 120)})
         out.append({"w1": 2, "ids": 3, "W": 5, "Ks": (100, 120, 140)})
+        out.append({"w1": 1, "w2": 1, "ids": 3, "inspect": "flush", "W": 5, "Ks": (100, 120), "context_bound": 2})
+        out.append({"w1": 2, "ids": 3, "inspect": "flush", "W": 5, "Ks": (90, 110)})
         out.append({"w1": 1, "w2": 1, "ids": 3, "W": 5, "Ks": (110, 130, 150), "context_bound": 2})
     return out
 
